@@ -1529,7 +1529,10 @@ def search(ctx, why, profile=Profile):
         hit = _fails(src, rn, inputs, profile)
         if not hit:
             continue
-        s2, rn2, in2 = shrink(src, rn, inputs, profile)
+        try:
+            s2, rn2, in2 = shrink(src, rn, inputs, profile)
+        except Exception:  # noqa: BLE001  (never lose a found failure to a shrinker problem)
+            s2, rn2, in2 = src, rn, inputs
         res = eval_real(s2, rn2, in2, profile)
         if report_oracle(ctx, res, "safe", profile) or res["facts"]:
             found += 1
